@@ -238,7 +238,9 @@ impl NodeState {
         self.datastore
             .iter()
             .filter(|(k, _)| k.len() > 2 && k[2] == h)
-            .map(|(k, (s, g))| (k.clone(), s.clone(), *g))
+            // the generation of an attempt record is never read by the plugin (it writes those keys
+            // unconditionally); only the state key's generation takes part in its decisions
+            .map(|(k, (s, g))| (k.clone(), s.clone(), if k.last().map(|x| x == "state").unwrap_or(false) { *g } else { 0 }))
             .collect()
     }
 }
